@@ -1,4 +1,5 @@
 """E2 helpers: MIR loading, proving obligations over mirsym path sets, replay families."""
+import os
 import time
 import z3
 
@@ -52,6 +53,36 @@ def disj(cs):
 TIMEOUT_MS = 120000
 
 
+CROSS = {"enabled": False, "checked": 0, "agree": 0, "unknown_or_unsupported": 0, "disagree": []}
+
+
+def cross_check(s, r):
+    """Second opinion (thorough tier): the same query in SMT-LIB text through cvc5. Only definite, different answers count."""
+    import subprocess
+    import tempfile
+    if r not in (z3.sat, z3.unsat):
+        return
+    try:
+        txt = "(set-logic ALL)\n" + s.to_smt2()
+        with tempfile.NamedTemporaryFile("w", suffix=".smt2", dir=common.scratch(), delete=False) as fh:
+            fh.write(txt)
+            path = fh.name
+        p = subprocess.run(["cvc5", "--lang", "smt2", "--tlimit=20000", path], capture_output=True, text=True, timeout=40)
+        os.unlink(path)
+        out = (p.stdout + p.stderr).strip().split("\n")
+        first = out[0].strip() if out else ""
+    except Exception:
+        first = "error"
+    CROSS["checked"] += 1
+    if first in ("sat", "unsat") and not any("(error" in l for l in out):
+        if first == str(r):
+            CROSS["agree"] += 1
+        else:
+            CROSS["disagree"].append({"z3": str(r), "cvc5": first, "query": txt[:400]})
+    else:
+        CROSS["unknown_or_unsupported"] += 1
+
+
 def solve(ex, assertions, timeout_ms=TIMEOUT_MS):
     s = z3.Solver()
     s.set("timeout", timeout_ms)
@@ -62,6 +93,8 @@ def solve(ex, assertions, timeout_ms=TIMEOUT_MS):
     t0 = time.time()
     r = s.check()
     dt = time.time() - t0
+    if CROSS["enabled"]:
+        cross_check(s, r)
     return r, (s.model() if r == z3.sat else None), dt, s
 
 
